@@ -33,6 +33,10 @@ QUICK = [
     (1, P(p1=["queue:1"], p2=["queue:2"], c1=["dequeue"], k=["close"])),
     (2, P(p1=["queue:1", "queue:2"], c1=["dequeueT"], c2=["tryDequeue", "size"])),
     (1, P(p1=["tryQueueT:1", "tryQueueT:2"], c1=["dequeue"], k=["close"])),
+    # a timed put blocked on a FULL queue when close() runs, and nobody else takes anything: what the producer finds afterwards
+    # shows whether the put was refused (the capacity bound leaves no other linearization)
+    (1, P(p1=["tryQueueT:1", "tryQueueT:2", "tryDequeue", "tryDequeue"], k=["close"])),
+    (1, P(p1=["queue:1", "queue:2", "tryDequeue", "tryDequeue"], k=["close"])),
     (1, P(c1=["dequeue"], c2=["dequeue"], p1=["queue:1"], k=["close"])),
     # two consumers parked, two puts, NO close: each put must wake a consumer of its own
     (2, P(c1=["dequeue"], c2=["dequeue"], p1=["queue:1", "queue:2"])),
